@@ -76,6 +76,21 @@ def Val.specLit : Val → List Char
   | .special r => quote r ++ [':', ':', 'F', 'L', 'O', 'A', 'T']
   | v => v.lit
 
+/-! ## `to_snowflake` for datetimes -/
+
+def pad (w n : Nat) : List Char :=
+  let s := (toString n).toList
+  List.replicate (w - s.length) '0' ++ s
+
+/-- the connector's `_datetime_to_snowflake`: the wall-clock fields AS GIVEN (no conversion to UTC or to the session
+    time zone), microseconds only when non-zero, and for an aware datetime its own UTC offset `±HH:MM` (`off` in minutes) -/
+def dtText (y mo d h mi s us : Nat) (off : Option Int) : List Char :=
+  (toString y).toList ++ '-' :: pad 2 mo ++ '-' :: pad 2 d ++ ' ' :: pad 2 h ++ ':' :: pad 2 mi ++ ':' :: pad 2 s
+    ++ (if us = 0 then [] else '.' :: pad 6 us)
+    ++ match off with
+       | none => []
+       | some o => (if o ≥ 0 then '+' else '-') :: pad 2 (o.natAbs / 60) ++ ':' :: pad 2 (o.natAbs % 60)
+
 /-! ## `%` formatting -/
 
 inductive Args where
